@@ -72,6 +72,8 @@ class World:
                 'fault': fault, 'fault_at': rng.randint(0, max(0, sum(len(c) for c in callers))), 'peerseed': rng.randrange(1 << 20)}
         if rng.random() < 0.3:
             scen['small_send_buffer'] = rng.choice([5, 12, 40])
+        if fault in ('none', 'error-replies') and rng.random() < 0.35:
+            scen['lazy_connect'] = True
         if rng.random() < 0.25:
             # the peer's replies arrive in two pieces, the second after a pause that may be longer than the receiver's
             # socket time-out (1 s): the bytes already received must not be lost
@@ -224,11 +226,15 @@ class World:
         def root():
             s = D.CURRENT
             cl = C.SecopClient('tcp://peerhost:5000', log=None)
-            try:
-                cl.connect()
-            except Exception as e:
-                info['connect_error'] = f'{type(e).__name__}: {e}'[:200]
-                return
+            if scen.get('lazy_connect'):
+                # the client is not connected beforehand: the first requests of all callers connect it (at the same time)
+                state['lazy'] = True
+            else:
+                try:
+                    cl.connect()
+                except Exception as e:
+                    info['connect_error'] = f'{type(e).__name__}: {e}'[:200]
+                    return
             info['client'] = cl
 
             def caller(i):
@@ -325,6 +331,12 @@ class World:
             return
         drop = state['drop_time'] if state['peer_dropped'] else None
         udrop = state['user_drop_time']
+        if state.get('lazy'):
+            r.count('runs_connected_by_the_first_requests')
+            nconn = sum(1 for a in self.sockmod.attempts if a[2] == 'connected')
+            if nconn > 1 and first_drop_none(state):
+                r.violation('C11/connected-more-than-once', f'{nconn} connections were opened by the first requests of {len(scen["callers"])} callers (no connection was lost)', case)
+                return
         if state.get('streamed'):
             r.count('runs_with_steady_update_traffic')
         if state.get('pieces_sent'):
@@ -488,6 +500,10 @@ def run_shard(shard):
             w.run(scen, ('pct', rng.choice([1, 2, 3]), 600), seed)
     w.D.unwatch_all()
     return r.result()
+
+
+def first_drop_none(state):
+    return state.get('drop_time') is None and state.get('user_drop_time') is None and not state.get('peer_dropped')
 
 
 def replay(case):
